@@ -284,6 +284,10 @@ func OracleBystanders(prop string) func(w *World, h *History) {
 		if hol == "" {
 			hol = "no"
 		}
+		dist := ""
+		if ds, ok := w.Desc["disturbers"].([]string); ok {
+			dist = strings.Join(ds, "+")
+		}
 		for _, id := range h.RPCIDs {
 			r := h.RPCs[id]
 			p := r.Plan
@@ -294,7 +298,10 @@ func OracleBystanders(prop string) func(w *World, h *History) {
 			if p.Role == "fresh" {
 				kind = "tunnel-unusable-afterwards"
 			}
-			det := map[string]string{"role": p.Role, "shape": shapeNames[p.Shape], "hol": hol}
+			det := map[string]string{"role": p.Role, "hol": hol}
+			if dist != "" {
+				det["disturbers"] = dist
+			}
 			term := r.Terminal()
 			if term == nil {
 				continue // OracleHung
@@ -322,7 +329,11 @@ func OracleBystanders(prop string) func(w *World, h *History) {
 			}
 			pr := e.P.(*TunnelProbe)
 			if pr.DoneClosed {
-				w.AddViolation(prop, "tunnel-ended-by-disturber", fmt.Sprintf("tunnel 0 is closed at the drain checkpoint (Err=%v) although nothing ended it", pr.Err), map[string]string{"hol": hol}, e.Seq)
+				d := map[string]string{"hol": hol}
+				if dist != "" {
+					d["disturbers"] = dist
+				}
+				w.AddViolation(prop, "tunnel-ended-by-disturber", fmt.Sprintf("tunnel 0 is closed at the drain checkpoint (Err=%v) although nothing ended it", pr.Err), d, e.Seq)
 			}
 		}
 	}
